@@ -78,6 +78,8 @@ fn picture(size: (i32, i32), fonts: &[(usize, &BitFont)], ice: bool) -> Buffer {
     buf
 }
 
+static WITH_SAUCE: std::sync::atomic::AtomicBool = std::sync::atomic::AtomicBool::new(false);
+
 /// One (font, carrier) experiment; `other` is the second font of the XBin 512-character mode.
 fn run_font(out: &mut Out, case: &str, cls: &str, carrier: &str, f: &BitFont, other: Option<&BitFont>, slot: usize, variant: u64) {
     run_font_after(out, case, cls, carrier, f, other, slot, variant, None)
@@ -92,6 +94,8 @@ fn run_font_after(out: &mut Out, case: &str, cls: &str, carrier: &str, f: &BitFo
     let lossless = variant % 2 == 0;
     let mut opts = SaveOptions::default();
     opts.lossles_output = lossless;
+    // the file may carry a SAUCE record that NAMES a font (family 3c switches it on)
+    opts.save_sauce = WITH_SAUCE.load(std::sync::atomic::Ordering::Relaxed);
     let mut idx = 0;
     let cell: std::cell::RefCell<Vec<u8>> = std::cell::RefCell::new(Vec::new());
     let res = match carrier {
@@ -444,6 +448,26 @@ pub fn c17(a: &Args) {
                 }
             }
         }
+    }
+
+    // (3c) two sources for one font: the file embeds the glyphs AND its SAUCE record names a font. Fonts that carry the name of a
+    //      SAUCE font (every 8x16 one) but edited glyphs, through the carriers that can hold a SAUCE record, with and without it:
+    //      what is embedded wins
+    if only.is_empty() || only == "named" {
+        for (ni, name) in icy_engine::SAUCE_FONT_NAMES.iter().enumerate() {
+            let Ok(mut f) = BitFont::from_sauce_name(name) else { continue };
+            if f.size.height != 16 || f.length != 256 { continue; }
+            if let Some(g) = f.get_glyph_mut('A') { g.data[1] ^= 0x66; g.data[14] ^= 0x18; }
+            f.calculate_checksum();
+            for carrier in ["adf", "xbin", "idf", "icy"] {
+                for sauce in [true, false] {
+                    WITH_SAUCE.store(sauce, std::sync::atomic::Ordering::Relaxed);
+                    run_font(&mut out, &format!("{carrier}-edited-{}-sauce{}", name.replace(' ', "_"), sauce as u8), "named", carrier, &f, None, 0, ni as u64);
+                    n_font += 1;
+                }
+            }
+        }
+        WITH_SAUCE.store(false, std::sync::atomic::Ordering::Relaxed);
     }
 
     // (4) TheDraw fonts: TLC case table type x defined subset x size x name length x bundle size
